@@ -575,6 +575,56 @@ fn run_adjchain(w: usize, len: usize, unit: &Value, only: Option<&[Tok]>, ctx: &
     });
 }
 
+// ------------------------------------------------------------------------------------------
+// an alternative that is a flag with an environment fallback: when the flag is typed the state of
+// the variable does not matter (the typed flag is consumed, that alternative is the one touched)
+// ------------------------------------------------------------------------------------------
+const ENV7: &str = "BPAFMC_C07";
+fn envflag_opts(w: usize, order: usize) -> Opts {
+    let intel = P::Map(P::ReqFlag(Names::both('i', "intel").env(ENV7)).bx(), "I".into());
+    let att = P::Map(P::ReqFlag(Names::long("att")).bx(), "A".into());
+    let choice = if order == 0 { P::Alt(vec![intel, att]) } else { P::Alt(vec![att, intel]) };
+    let cw = match w {
+        0 => choice,
+        1 => choice.opt(),
+        2 => choice.many(),
+        _ => P::Some_(choice.bx(), false),
+    };
+    Opts::new(P::Seq(vec![P::Switch(Names::short('v')), cw]))
+}
+
+fn run_envflag(w: usize, order: usize, unit: &Value, only: Option<&[Tok]>, ctx: &mut Ctx) {
+    let lines: Vec<Vec<&str>> = vec![vec!["--intel"], vec!["-i"], vec!["-v", "--intel"], vec!["--intel", "-v"], vec!["-vi"], vec!["--intel", "--intel"], vec!["-i", "-v", "--intel"]];
+    for l in lines {
+        let argv: Vec<Tok> = l.iter().map(|s| Tok::s(s)).collect();
+        if only.map_or(false, |o| o != argv.as_slice()) {
+            continue;
+        }
+        ctx.begin_case(|| json!({"argv": argv}));
+        ctx.s.evaluations += 2;
+        ctx.s.states += 1;
+        // fresh parser values: nothing may depend on an earlier run
+        let (p1, p2) = match (build_checked(&envflag_opts(w, order)), build_checked(&envflag_opts(w, order))) {
+            (Ok(a), Ok(b)) => (a, b),
+            _ => return,
+        };
+        std::env::remove_var(ENV7);
+        let unset = run(&p1, &argv);
+        std::env::set_var(ENV7, "1");
+        let set = run(&p2, &argv);
+        std::env::remove_var(ENV7);
+        if unset == set {
+            ctx.s.nontrivial += 1;
+            ctx.count("typed-env-backed-alternatives-judged");
+        } else {
+            let mut sig = BTreeMap::new();
+            sig.insert("clause".to_string(), "typed-flag-alternative-does-not-depend-on-its-variable".to_string());
+            sig.insert("observed".to_string(), set.class().to_string());
+            ctx.violation(Violation { property: "C07".into(), rule: "typed-flag-alternative-does-not-depend-on-its-variable".into(), sig, unit: unit.clone(), case: json!({"argv": argv}), expected: format!("with {} set, the outcome of the same line with it unset: {}", ENV7, unset.brief()), observed: set.brief(), size: argv.len() * 1000 });
+        }
+    }
+}
+
 impl Check for C07 {
     fn id(&self) -> &'static str {
         "C07"
@@ -646,6 +696,11 @@ impl Check for C07 {
         for w in 0..3 {
             out.push(json!({"adjchain": w, "len": tier.pick(5, 6)}));
         }
+        for w in 0..4 {
+            for order in 0..2 {
+                out.push(json!({"envflag": w, "order": order}));
+            }
+        }
         for w in [crate::checks::c19::W::Bare, crate::checks::c19::W::Opt, crate::checks::c19::W::Many] {
             for v in [crate::checks::c19::V::Absent, crate::checks::c19::V::Before, crate::checks::c19::V::After] {
                 out.push(json!({"twokinds": crate::checks::c19::Def { g: crate::checks::c19::G::TwoKinds, w, t: crate::checks::c19::T::None, v, len: tier.pick(5, 6) }}));
@@ -654,6 +709,10 @@ impl Check for C07 {
         out
     }
     fn run_unit(&self, unit: &Value, ctx: &mut Ctx) {
+        if let Some(w) = unit.get("envflag").and_then(|w| w.as_u64()) {
+            run_envflag(w as usize, unit["order"].as_u64().unwrap_or(0) as usize, unit, None, ctx);
+            return;
+        }
         if let Some(w) = unit.get("adjchain").and_then(|w| w.as_u64()) {
             run_adjchain(w as usize, unit["len"].as_u64().unwrap_or(5) as usize, unit, None, ctx);
             return;
@@ -690,6 +749,11 @@ impl Check for C07 {
         });
     }
     fn replay(&self, unit: &Value, case: &Value, ctx: &mut Ctx) {
+        if let Some(w) = unit.get("envflag").and_then(|w| w.as_u64()) {
+            let argv: Vec<Tok> = serde_json::from_value(case["argv"].clone()).unwrap_or_default();
+            run_envflag(w as usize, unit["order"].as_u64().unwrap_or(0) as usize, unit, Some(&argv), ctx);
+            return;
+        }
         if let Some(w) = unit.get("adjchain").and_then(|w| w.as_u64()) {
             let argv: Vec<Tok> = serde_json::from_value(case["argv"].clone()).unwrap_or_default();
             run_adjchain(w as usize, 0, unit, Some(&argv), ctx);
@@ -712,7 +776,7 @@ impl Check for C07 {
         }
     }
     fn rule(&self) -> String {
-        "definitions = construct!([a1..an]) and choice([a1..an]) (the run-time function; quick: vectors up to 3 items) for every ordered tuple of n=2,3 (thorough: also 4) alternatives from {req_flag, argument, switch, argument with fallback, group of two arguments, group flag+argument, command}, the choice bare / optional / many / some, with and without a neighbouring switch; every vector of the token tree over the alternatives' names, two values, command names; reference model: T = alternatives whose names occur; |T|=0 -> first alternative accepting the empty line, |T|=1 -> that alternative's grammar, |T|>=2 -> failure; many/some over single-item alternatives -> list in command-line order; lines outside the model (a repeated choice containing a command or a group) are not judged for acceptance, but for choices over single-item alternatives and commands an accepted one must list its values in command-line order; state = (definition, vector); non-trivial = judged vector containing at least one alternative's item".into()
+        "definitions = construct!([a1..an]) and choice([a1..an]) (the run-time function; quick: vectors up to 3 items) for every ordered tuple of n=2,3 (thorough: also 4) alternatives from {req_flag, argument, switch, argument with fallback, group of two arguments, group flag+argument, command}, the choice bare / optional / many / some, with and without a neighbouring switch; every vector of the token tree over the alternatives' names, two values, command names; reference model: T = alternatives whose names occur; |T|=0 -> first alternative accepting the empty line, |T|=1 -> that alternative's grammar, |T|>=2 -> failure; many/some over single-item alternatives -> list in command-line order; lines outside the model (a repeated choice containing a command or a group) are not judged for acceptance, but for choices over single-item alternatives and commands an accepted one must list its values in command-line order; state = (definition, vector); non-trivial = judged vector containing at least one alternative's item; plus a choice with a flag alternative backed by an environment variable (bare / optional / many / some, either order): lines that type the flag give the same outcome with the variable set and unset".into()
     }
     fn bounds(&self, tier: Tier) -> Value {
         json!({"alternatives": tier.pick("2..3", "2..4"), "vector_length": tier.pick("5 (n=2), 4 (n=3)", "6 (n=2), 5 (n=3), 4 (n=4)")})
